@@ -72,16 +72,21 @@ class FixedPointMult(Logic):
         b = self.addIn('b', b)
         r = self.addOut('r', r)
         
-        sa = self.wire('sa', a.getWidth()+b.getWidth())
-        sb = self.wire('sb', a.getWidth()+b.getWidth())
+        low = af[2]+bf[2]-rf[2]
+        high = low + r.getWidth()
+        
+        # the product must be at least as wide as the extracted window,
+        # otherwise the upper bits of a negative product are read as zero
+        pw = max(a.getWidth()+b.getWidth(), high)
+        
+        sa = self.wire('sa', pw)
+        sb = self.wire('sb', pw)
         
         SignExtend(self, 'sa', a, sa)
         SignExtend(self, 'sb', b, sb)
                 
-        m = self.wire('m', a.getWidth()+b.getWidth())
+        m = self.wire('m', pw)
         Mul(self, 'm', sa, sb, m)
         
         # Range(self, 'r', m, r.getWidth()+rf[2], rf[2], r)
-        low = af[2]+bf[2]-rf[2]
-        high = low + r.getWidth()
         Range(self, 'r', m, high, low, r)
